@@ -22,6 +22,8 @@ pub struct SurfCase {
     pub twin_of: Option<usize>,
     /// answers are an infinite stream: only a prefix is checked for soundness
     pub infinite: bool,
+    /// the whole program is depth-first (`dfs { }`): the SEQUENCE of answers must be the reference's
+    pub ordered: bool,
     pub tag: &'static str,
 }
 
@@ -260,6 +262,11 @@ pub fn judge(id: &str, cases: &[SurfCase], outcomes: &[SurfOutcome], merged: &mu
                     }
                 } else if let Cmp::Different(why) = compare_multisets(&real, &rans, &uni) {
                     viol(merged, &case, "M-ref", "compiled surface program's answers differ from the reference semantics of its AST", format!("{} | compiled {} | reference {}", why, show_answers(&real), show_answers(&rans)), ptxt.clone());
+                } else if c.ordered {
+                    bump_by(&mut merged.counters, "compiled_sequences_compared", 1);
+                    if let Cmp::Different(why) = compare_sequences(&real, &rans, &uni) {
+                        viol(merged, &case, "M-order", "compiled depth-first program: answers are not in Prolog order", format!("{} | compiled {} | reference {}", why, show_answers(&real), show_answers(&rans)), ptxt.clone());
+                    }
                 }
                 if !rans.is_empty() {
                     merged.distinct.insert(fnv(&format!("{}/{:?}", ptxt, c.naming)));
